@@ -36,6 +36,15 @@ pub enum IOp {
     U2fAuthenticate { h: u8 },
     /// a ceremony the user denies (OperationDenied from the user step): 0 make, 1 get A, 2 trait make, 3 trait get A
     Denied(u8),
+    /// an assertion with a stored credential whose key cannot sign (public half only): refused late,
+    /// after lookup and consent
+    GetUnusableKey,
+    /// an assertion with A whose counter write-back the store refuses (after consent)
+    GetUpdateFails,
+    /// a ceremony (0 make, 1 get A, 2 trait make, 3 trait get A) during which user-supplied code
+    /// panics - `what`: 0 the user-validation method, 1 the store's lookup, 2 the store's write;
+    /// the embedder catches the unwind and goes on using the instance
+    Panics { op: u8, what: u8 },
 }
 
 fn seeds() -> Vec<Passkey> {
@@ -43,6 +52,12 @@ fn seeds() -> Vec<Passkey> {
         seeded(&Seed { n: 1, rp: RP.into(), handle: Some(vec![1]), counter: Some(41), hmac: Some(true) }),
         seeded(&Seed { n: 2, rp: RP.into(), handle: Some(vec![2]), counter: None, hmac: Some(true) }),
         seeded(&Seed { n: 3, rp: "other.org".into(), handle: Some(vec![1]), counter: Some(7), hmac: None }),
+        {
+            // a credential of which the store only has the public half
+            let mut p = seeded(&Seed { n: 4, rp: RP.into(), handle: Some(vec![4]), counter: Some(3), hmac: None });
+            p.key.params.retain(|(l, _)| *l != coset::Label::Int(-4));
+            p
+        },
     ]
 }
 
@@ -123,7 +138,17 @@ where
         Err(e) => format!("err:{e:?}"),
     };
     match op {
-        IOp::Denied(k) => {
+        IOp::GetUnusableKey => {
+            let req = ga_request(RP, Some(vec![cred_id(4)]), false, true, true, false, None);
+            let r = match poll_n(auth.get_assertion(req), None) {
+                Polled::Done { value, .. } => value,
+                _ => return "STUCK".into(),
+            };
+            ga_fmt(r, created)
+        }
+        IOp::GetUpdateFails => one(auth, IOp::Get { who: 0, prf: false, silent: false }, step, created),
+        IOp::Panics { op, .. } | IOp::Denied(op) => {
+            let k = op;
             let inner = match k {
                 0 => IOp::Make { rk: true, prf: false },
                 1 => IOp::Get { who: 0, prf: false, silent: false },
@@ -214,17 +239,47 @@ where
     // the user step's answer is configuration of the instance: a silent operation gets its own
     // instance in both runs (it is the *other* operations that share one)
     let log = Log::new();
+    // every instance reaches the store through the same switch (drivers::SwitchStore)
+    let store = SwitchStore::new(store);
     let mut long_lived = mk_log(store.clone(), false, log.clone());
     for (k, op) in hist.iter().enumerate() {
-        let answer = matches!(op, IOp::Denied(_)).then_some(UvOutcome::Err(0x27));
+        let answer = match op {
+            IOp::Denied(_) => Some(UvOutcome::Err(0x27)),
+            IOp::Panics { what: 0, .. } => Some(UvOutcome::Err(UV_PANICS)),
+            _ => None,
+        };
+        let switch = match op {
+            IOp::GetUpdateFails => 1,
+            IOp::Panics { what: 1, .. } => 3,
+            IOp::Panics { what: 2, .. } => 4,
+            _ => 0,
+        };
+        store.switch.store(switch, std::sync::atomic::Ordering::SeqCst);
+        let injected = matches!(op, IOp::Panics { .. });
+        // an injected panic is caught like an embedder would; any other panic unwinds to the caller
+        let guarded = |f: &mut dyn FnMut() -> String| -> String {
+            if injected {
+                match std::panic::catch_unwind(std::panic::AssertUnwindSafe(|| f())) {
+                    Ok(r) => r,
+                    Err(p) => {
+                        let m = p.downcast_ref::<String>().cloned().or_else(|| p.downcast_ref::<&str>().map(|s| s.to_string())).unwrap_or_default();
+                        if m.starts_with("injected:") { "panicked (injected)".to_string() } else { format!("panicked: {m}") }
+                    }
+                }
+            } else {
+                f()
+            }
+        };
         let r = if one_instance && !silent_of(op) {
             log.set_answer(answer);
-            one(&mut long_lived, *op, k, &mut created)
+            guarded(&mut || one(&mut long_lived, *op, k, &mut created))
         } else {
             let l2 = Log::new();
             l2.set_answer(answer);
-            one(&mut mk_log(store.clone(), silent_of(op), l2), *op, k, &mut created)
+            let mut fresh = mk_log(store.clone(), silent_of(op), l2);
+            guarded(&mut || one(&mut fresh, *op, k, &mut created))
         };
+        store.switch.store(0, std::sync::atomic::Ordering::SeqCst);
         out.push(r);
     }
     (out, snap(recs(), &created))
@@ -287,6 +342,9 @@ fn op_name(op: &IOp) -> &'static str {
         IOp::U2fRegister { .. } => "u2f_register",
         IOp::U2fAuthenticate { .. } => "u2f_authenticate",
         IOp::Denied(_) => "denied-by-user",
+        IOp::GetUnusableKey => "get_assertion(unusable key)",
+        IOp::GetUpdateFails => "get_assertion(update fails)",
+        IOp::Panics { .. } => "user-code-panics",
     }
 }
 
